@@ -561,3 +561,76 @@ from . import c05 as _c05
 PROP.obligation('C11.network-lookup', canaries=[
     mut.replace_expr('networks', 'network_by_value', 'NETWORK_DEFINITIONS[nv][field] == value', 'NETWORK_DEFINITIONS[nv][field].upper() == value.upper()', 'human-readable parts matched case-insensitively', nth=0),
 ])(_c05.network_by_value_exact)
+
+
+@PROP.obligation('C11.address-payload-length', canaries=[
+    mut.drop_stmt('keys', 'deserialize_address', 'if script_type and len(public_key_hash) != 20', 'base58 addresses of any payload length accepted'),
+    mut.const('keys', 'deserialize_address', 20, 21, 'payload length limit 20 -> 21'),
+])
+def address_payload_length(ctx):
+    """A Base58Check address is version byte + 20-byte hash + checksum. keys.deserialize_address (behind Address.parse and every address
+    argument of transactions and wallets) is evaluated - the Base58 decoding and the hash replaced by values that make the checksum
+    match - for payloads of 10, 19, 20, 21 and 32 bytes under a P2PKH and a P2SH version byte: only 20 bytes give an address; the
+    encoding-level decoder addr_base58_to_pubkeyhash already refuses the others."""
+    q = 'keys:deserialize_address'
+    fn = ctx.repo.func(q)
+    n = 0
+    for ver, stype in ((b'\x00', 'p2pkh'), (b'\x05', 'p2sh')):
+        for L in (10, 19, 20, 21, 32):
+            payload = ver + b'\x11' * L
+            hooks = {'change_base': lambda it, a, kw, st, node, _p=payload: _p + b'CCCC',
+                     'double_sha256': lambda it, a, kw, st, node: b'CCCC' + b'\x00' * 28,
+                     'network_by_value': lambda it, a, kw, st, node, _v=ver: (['bitcoin'] if (a[0], a[1]) in (('prefix_address', '00'), ('prefix_address_p2sh', '05')) and a[1] == _v.hex() else [])}
+            it = Interp(ctx.repo, 'keys', hooks=hooks)
+            try:
+                exits = it.run_function(fn, {'address': 'X' * 30, 'encoding': None, 'network': None})
+            except AnalysisError as e:
+                ctx.undecided('deserialize_address not evaluable for a %d-byte %s payload: %s' % (L, stype, str(e)[:100]))
+            kinds = sorted(set(e.kind for e in exits if not e.pc))
+            if any(e.pc for e in exits) and not kinds:
+                ctx.undecided('deserialize_address for a %d-byte %s payload: outcome depends on %s' % (L, stype, [show(t)[:40] for e in exits for t, _ in e.pc][:2]))
+            accepted = [e for e in exits if e.kind == 'return' and isinstance(e.value, dict) and not e.pc]
+            n += 1
+            ctx.saw('%s version, %d-byte payload -> %s' % (stype, L, 'address' if accepted else kinds))
+            if L == 20:
+                ctx.require(bool(accepted) and accepted[0].value.get('script_type') == stype, q, 'a well-formed %s address (20-byte hash) is %s' % (stype, 'refused' if not accepted else accepted[0].value.get('script_type')), fn)
+            else:
+                ctx.require(not accepted, q, 'a Base58Check string with a %s version byte and a %d-byte payload is accepted as an address' % (stype, L), fn,
+                            'Address.parse accepts (and re-encodes identically) strings that are not addresses: a truncated or extended hash, or a 33-byte WIF-sized payload under the P2SH version')
+    ctx.floor(n, 10, 'payload scenarios')
+
+
+@PROP.obligation('C11.wif-payload-length', canaries=[
+    mut.drop_stmt('keys', 'Key.__init__', 'if len(key_byte) != 32', 'WIF payloads of any length accepted'),
+])
+def wif_payload_length(ctx):
+    """A WIF string is version byte + 32-byte key (+ 01 for the compressed form) + checksum. The WIF branch of Key.__init__ is evaluated -
+    Base58 decoding and hash replaced by values that make the checksum match - for payloads of 10, 31, 32, 33 (ending 01 and ending 02)
+    and 34 bytes: the branch ends with a 32-byte private key or a refusal, never with a key of another length."""
+    q = 'keys:Key.__init__'
+    fn = ctx.repo.func(q)
+    blks = [n for n in ast.walk(fn) if isinstance(n, ast.If) and "'wif'" in unparse(n.test) and 'self.key_format' in unparse(n.test) and any('change_base' in unparse(x) for x in n.body)]
+    if len(blks) != 1:
+        ctx.undecided('Key.__init__: WIF import branch not found (%d candidates)' % len(blks))
+    n = 0
+    sec = bytes(range(1, 33))
+    for payload, want in ((sec[:10], None), (sec[:31], None), (sec, 32), (sec + b'\x01', 32), (sec + b'\x02', None), (sec + b'\x01\x01', None)):
+        raw = b'\x80' + payload
+        hooks = {'change_base': lambda it, a, kw, st, node, _p=raw: _p + b'CCCC', 'double_sha256': lambda it, a, kw, st, node: b'CCCC' + b'\x00' * 28,
+                 'network_by_value': lambda it, a, kw, st, node: ['bitcoin']}
+        it = Interp(ctx.repo, 'keys', hooks=hooks, self_cls='keys:Key')
+        st = State(env={'self': S(('var', 'self')), 'import_key': 'W' * 51})
+        it.frames.append([])
+        try:
+            end = it.exec_block(blks[0].body, st)
+        except AnalysisError as e:
+            ctx.undecided('Key.__init__: WIF branch not evaluable for a %d-byte payload: %s' % (len(payload), str(e)[:100]))
+        n += 1
+        kb = None if end is None else end.env.get('key_byte')
+        ctx.saw('WIF payload of %d bytes%s -> %s' % (len(payload), ' ending %02x' % payload[-1] if len(payload) > 32 else '', 'refused' if end is None else 'private key of %s bytes' % (len(kb) if isinstance(kb, bytes) else show(term(kb))[:30])))
+        if want is None:
+            ctx.require(end is None, q, 'a WIF string whose payload has %d bytes%s is imported as a private key of %s bytes' % (len(payload), ' (not ending in the compression flag 01)' if len(payload) == 33 else '', len(kb) if isinstance(kb, bytes) else '?'), blks[0],
+                        'Key(<Base58Check of 80 + 31 bytes>) is a key object with a 31-byte secret; 80 + 32 bytes + 02 gives a 33-byte "secret"')
+        else:
+            ctx.require(end is not None and isinstance(kb, bytes) and len(kb) == want, q, 'a well-formed WIF payload of %d bytes is %s' % (len(payload), 'refused' if end is None else 'imported with %s bytes' % (len(kb) if isinstance(kb, bytes) else '?')), blks[0])
+    ctx.floor(n, 6, 'WIF payload scenarios')
